@@ -332,3 +332,60 @@ Fixpoint pq_loop_inv (fuel : nat) (elems : list nat) (t : pq) : bool :=
   end.
 Definition pq_inv (elems : list nat) (F : list (list nat)) : bool :=
   (length F <=? 2) || pq_loop_inv (length F) elems (Node KP (map Leaf F)).
+
+(* ------------------------------------------------------------------------------------------------ *)
+(* diagnostics for small trees: the list of all frontiers a tree represents, and the check of the completeness
+   step  "a frontier in which the sets containing v are consecutive survives set_contiguous v; an error only if there
+   is no such frontier"  on a tree and all its subtrees (op c05.pq_complete_chk; not used by the theorems) *)
+From PrefVerif Require Import Lib.Perms.
+
+Fixpoint prod_concat (l : list (list (list (list nat)))) : list (list (list nat)) :=
+  match l with
+  | [] => [[]]
+  | A :: rest => flat_map (fun a => map (app a) (prod_concat rest)) A
+  end.
+
+Fixpoint orders (t : pq) : list (list (list nat)) :=
+  match t with
+  | Leaf s => [[s]]
+  | Node KP cs => flat_map prod_concat (perms (map orders cs))
+  | Node KQ cs => prod_concat (map orders cs) ++ prod_concat (rev (map orders cs))
+  end.
+
+Fixpoint order_eqb (a b : list (list nat)) : bool :=
+  match a, b with
+  | [], [] => true
+  | x :: a', y :: b' => lnat_eqb x y && order_eqb a' b'
+  | _, _ => false
+  end.
+
+Fixpoint subtrees (t : pq) : list pq :=
+  t :: match t with Leaf _ => [] | Node _ cs => flat_map subtrees cs end.
+
+Definition complete_step (fuel v : nat) (s : pq) : bool :=
+  let good := filter (fun o => contig01 (map (memn v) o)) (orders s) in
+  match set_contiguous fuel v s with
+  | Ok (s', _) =>
+      let os' := orders s' in
+      forallb (fun o => existsb (order_eqb o) os') good &&
+      (* second application (the second pass works on such trees): nothing is lost either *)
+      match set_contiguous fuel v (flat_ret s') with
+      | Ok (s'', _) => let os'' := orders s'' in forallb (fun o => existsb (order_eqb o) os'') os'
+      | Err _ => false
+      end
+  | Err ValueErr => match good with [] => true | _ => false end
+  | Err _ => false
+  end.
+
+Fixpoint pq_complete_loop (fuel : nat) (elems : list nat) (t : pq) : bool :=
+  match elems with
+  | [] => true
+  | i :: rest =>
+      forallb (complete_step fuel i) (subtrees t) &&
+      match set_contiguous fuel i t with
+      | Ok (t', _) => pq_complete_loop fuel rest (flat_ret t')
+      | Err _ => true
+      end
+  end.
+Definition pq_complete_chk (elems : list nat) (F : list (list nat)) : bool :=
+  (length F <=? 2) || pq_complete_loop (length F) elems (Node KP (map Leaf F)).
